@@ -259,6 +259,13 @@ type xfsCall struct {
 	returned   bool
 	started    bool
 	waitFrom   time.Time
+	mu         sync.Mutex // guards dos, dones, srcErr, events (written by the call's goroutine, read by the driver)
+}
+
+func (c *xfsCall) counts() (int, int, error) {
+	c.mu.Lock()
+	defer c.mu.Unlock()
+	return c.dos, c.dones, c.srcErr
 }
 
 func (c *xfsCall) key() string { return "c" + strconv.Itoa(c.id) }
@@ -390,7 +397,9 @@ func xfsNewWorld(base string, cfg xfsCfg, mps, blobs []string, silence time.Dura
 		}
 		src, err := real(labels)
 		if c != nil {
+			c.mu.Lock()
 			c.srcErr = err
+			c.mu.Unlock()
 		}
 		if err == nil && labels["xfs/mirror"] == "1" {
 			// a second source in front: a mirror that does not have the blob ("first source that resolves wins")
@@ -515,13 +524,17 @@ func xfsEvent(name string, kv ...any) {
 			return
 		}
 		if name == "task.Do" {
+			c.mu.Lock()
 			c.dos++
+			c.mu.Unlock()
 			if w.isFree() {
 				w.logEv(map[string]any{"ev": "Do", "c": c.id, "op": c.op, "mp": c.mp})
 			}
 			return
 		}
+		c.mu.Lock()
 		c.dones++
+		c.mu.Unlock()
 		if w.isFree() {
 			w.logEv(map[string]any{"ev": "Done", "c": c.id, "op": c.op, "mp": c.mp})
 			return
@@ -551,7 +564,9 @@ func xfsEvent(name string, kv ...any) {
 				l = nil
 			}
 		}
+		c.mu.Lock()
 		c.events = append(c.events, map[string]any{"name": name, "key": kv[1].(string), "l": l})
+		c.mu.Unlock()
 	case "layer.waiter.closed":
 		if w := xfsWorldOf(kv[0]); w != nil {
 			w.mu.Lock()
@@ -822,7 +837,10 @@ func (w *xfsWorld) start(c *xfsCall) {
 }
 
 func (w *xfsWorld) mapEvent(c *xfsCall, name string) (string, int) {
-	for _, e := range c.events {
+	c.mu.Lock()
+	evs := append([]map[string]any{}, c.events...)
+	c.mu.Unlock()
+	for _, e := range evs {
 		if e["name"] == name {
 			h := 0
 			if l, ok := e["l"].(layer.Layer); ok && l != nil {
@@ -892,7 +910,7 @@ func (w *xfsWorld) exec(s xfsStep) ([]map[string]any, error) {
 			if err := must(next(xfsStepTimeout), "sources"); err != nil {
 				return nil, err
 			}
-			ev["dos"] = c.dos
+			ev["dos"], _, _ = c.counts()
 		} else {
 			return nil, nil // Check: Do and the lookup are adjacent in the code; executed (and recorded) with the Lookup step
 		}
@@ -902,7 +920,8 @@ func (w *xfsWorld) exec(s xfsStep) ([]map[string]any, error) {
 		if err := must(st, "resolve", "done"); err != nil {
 			return nil, err
 		}
-		ev["ok"] = c.srcErr == nil
+		_, _, serr := c.counts()
+		ev["ok"] = serr == nil
 	case "Resolve":
 		st := next(xfsStepTimeout)
 		if err := must(st, "resolve"); err != nil {
@@ -970,18 +989,26 @@ func (w *xfsWorld) exec(s xfsStep) ([]map[string]any, error) {
 			return nil, err
 		}
 		ev["err"] = xfsErrClass(c.op, c.err)
-		ev["dos"], ev["dones"] = c.dos, c.dones
+		ev["dos"], ev["dones"], _ = c.counts()
 		if c.err != nil {
 			ev["msg"] = c.err.Error()
 		}
 	case "Lookup":
 		w.start(c)
 		c.waitFrom = time.Now()
+		for end := time.Now().Add(xfsStepTimeout); time.Now().Before(end); time.Sleep(200 * time.Microsecond) {
+			if k, _ := w.mapEvent(c, "fs.map.lookup"); k != "" { // the lookup under layerMu has happened
+				break
+			}
+		}
 		st := next(150 * time.Millisecond) // nil: the call is waiting for the prefetch
-		if st != nil && st.at != "layercheck" && st.at != "csources" && st.at != "done" {
+		if st != nil && st.at != "layercheck" && st.at != "csources" && st.at != "done" && st.at != "returned" {
 			return nil, fmt.Errorf("step %v: Check arrived at %q", s, st.at)
 		}
-		pre = append(pre, map[string]any{"ev": "Do", "c": c.id, "dos": c.dos})
+		d0, _, _ := c.counts()
+		if d0 > 0 { // (a Check that never called DoPrioritizedTask has no Do event; the Return event carries the counts)
+			pre = append(pre, map[string]any{"ev": "Do", "c": c.id, "dos": d0})
+		}
 		ev["key"], ev["h"] = w.mapEvent(c, "fs.map.lookup")
 	case "LayerCheck":
 		switch cur() {
@@ -1017,7 +1044,6 @@ func (w *xfsWorld) exec(s xfsStep) ([]map[string]any, error) {
 			next(100 * time.Millisecond)
 		}
 		w.reg.set(w.reg.down, b, false)
-		ev["ok"] = c.dones == 0 || c.srcErr == nil && cur() != "done" || s.boo("ok")
 		ev["ok"] = !(cur() == "done" && !s.boo("ok"))
 	case "Wait":
 		if err := must(next(xfsStepTimeout), "done"); err != nil {
@@ -1076,10 +1102,18 @@ func (w *xfsWorld) exec(s xfsStep) ([]map[string]any, error) {
 			done := w.wdone[wp]
 			arrived := w.stops[key] != nil
 			w.mu.Unlock()
-			if done || (act == "PfStart" && arrived) {
-				if act == "PfStart" {
-					ev["closed"] = done && !arrived
+			if act == "PfStart" {
+				// goes on to the fetch gate, or (closed layer) ends at once; the waiter may already be released by a Check time-out
+				lv := reflect.ValueOf(w.oany[o-1])
+				cm := xfsLock(lv, "closedMu")
+				cm.Lock()
+				cl := xfsPeek(lv, "closed").Bool()
+				cm.Unlock()
+				if arrived || (cl && done) {
+					ev["closed"] = !arrived
+					break
 				}
+			} else if done {
 				break
 			}
 			if time.Now().After(deadline) {
@@ -1094,6 +1128,10 @@ func (w *xfsWorld) exec(s xfsStep) ([]map[string]any, error) {
 		ev["op"], ev["mp"] = c.op, c.mp
 	}
 	ev["obs"] = w.obs()
+	if (act == "Fuse" && ev["ok"] == false) || (act == "Verify" && ev["pass"] == false) {
+		// the implementation ran the failing step and the deferred release in one go: the projection belongs to the Release step
+		delete(ev, "obs")
+	}
 	for _, p := range pre {
 		p["op"], p["mp"] = c.op, c.mp
 		p["obs"] = ev["obs"]
@@ -1360,7 +1398,8 @@ func xfsFreeRun(base string, seed int64) []map[string]any {
 					}
 				}
 				xfsByGoid.Delete(c.goid)
-				e := map[string]any{"ev": "CallEnd", "c": c.id, "op": op, "mp": tmp, "err": xfsErrClass(op, err), "dos": c.dos, "dones": c.dones}
+				fd, fn, _ := c.counts()
+				e := map[string]any{"ev": "CallEnd", "c": c.id, "op": op, "mp": tmp, "err": xfsErrClass(op, err), "dos": fd, "dones": fn}
 				if op == "Mount" && err == nil {
 					e["read"] = xfsReadSome(w.dir(tmp), xfsGetBlob(c.b), "f2") // lazy read through the kernel
 				}
